@@ -535,6 +535,31 @@ func c01Main(r *engine.Run) {
 		}
 	}
 	{
+		// many-part operands (dozens of segments: index structures several levels deep) under
+		// integer and half-integer translations, against each other and a reduced alphabet
+		bigA := bigOperands(universe.Identity)
+		var jobs [][2]Operand
+		for _, sh := range [][2]float64{{0, 0}, {0.5, 0.5}, {1, 0}, {3, 2.5}, {7, 0}} {
+			s := universe.Affine{A: 1, D: 1, TX: sh[0], TY: sh[1], Name: fmt.Sprintf("shift(%g,%g)", sh[0], sh[1])}
+			bigB := bigOperands(s)
+			for i, a := range bigA {
+				for j, b := range bigB {
+					if level == 1 || (i+j)%2 == 0 {
+						jobs = append(jobs, [2]Operand{a, b})
+					}
+				}
+			}
+			for _, b := range bigB {
+				for i := 0; i < n; i += n/(9+16*level) + 1 {
+					jobs = append(jobs, [2]Operand{ops[i], b})
+				}
+			}
+		}
+		if r.Parallel(len(jobs), func(k int) { c01Pair(r, jobs[k][0], jobs[k][1]) }) {
+			r.Bound(fmt.Sprintf("many-part operands (36-point MultiPoint, 18-segment MultiLineStrings, 18-vertex zig-zag, comb polygon, 9-square MultiPolygon) × 5 translations × each other and a reduced alphabet: %d pairs × 8 operations", len(jobs)))
+		}
+	}
+	{
 		cp := ConcurrentPairs(level)
 		if r.Parallel(len(cp), func(k int) { c01Pair(r, cp[k][0], cp[k][1]) }) {
 			r.Bound(fmt.Sprintf("concurrent family: %d pairs with three edge interiors through one non-vertex lattice point (directions × extents with non-dyadic crossing parameters a/(a+b), a+b ∈ {3,7,11,25} × centres) × 8 operations", len(cp)))
